@@ -245,6 +245,21 @@ def known(ctx, mod):
         if e.get("status") != "known":
             continue
         rp = e.get("replay")
+        if rp and rp.endswith(".cc"):
+            # a stand-alone C++ replay (functor kinds outside the operation language): build it against the
+            # current tree under ASan; it still fails iff the sanitizer reports
+            src = os.path.join(common.VERIF, rp)
+            if os.path.exists(src):
+                rexe, rlog = common.build_harness(src, "replay_" + e["id"].lower())
+                if rexe:
+                    env = dict(os.environ)
+                    env.update(runtime.SAN_ENV)
+                    import subprocess
+                    pr = subprocess.run([rexe] + list(e.get("replay_args", [])), stdout=subprocess.PIPE, stderr=subprocess.PIPE, text=True, timeout=120,
+                                        env=env, errors="replace")
+                    if runtime.classify_stderr(pr.returncode, pr.stderr):
+                        lines.append(e["what"])
+            continue
         if not rp or not rp.endswith(".prog"):
             continue
         path = os.path.join(common.VERIF, rp)
